@@ -496,7 +496,10 @@ impl Transport for MmioTransport<'_> {
         );
         assert!(offset.is_multiple_of(align_of::<T>()));
 
-        if self.config_space.len() < offset + size_of::<T>() {
+        if offset
+            .checked_add(size_of::<T>())
+            .is_none_or(|end| self.config_space.len() < end)
+        {
             Err(Error::ConfigSpaceTooSmall)
         } else {
             // SAFETY: The caller of `MmioTransport::new` guaranteed that the header pointer was
@@ -526,7 +529,10 @@ impl Transport for MmioTransport<'_> {
         );
         assert!(offset.is_multiple_of(align_of::<T>()));
 
-        if self.config_space.len() < offset + size_of::<T>() {
+        if offset
+            .checked_add(size_of::<T>())
+            .is_none_or(|end| self.config_space.len() < end)
+        {
             Err(Error::ConfigSpaceTooSmall)
         } else {
             // SAFETY: The caller of `MmioTransport::new` guaranteed that the header pointer was
